@@ -160,6 +160,28 @@ func runC03(c *Ctx) []Violation {
 	if tr.HitReadLimit {
 		return mk("C03.unbounded", fmt.Sprintf("%s: no terminal result after %d Reads on a %d-byte input", w.Format, bound, len(ww.Input)), "")
 	}
+	if c.T.Chance("c03.schema-reader-fault", 1, 8) && len(ww.Schema) > 0 {
+		// the schema arrives through an io.Reader as well: it may fail or end early at any offset,
+		// under any delivery; NewSchema must then answer with a Schema or an error, nothing else
+		splan := simio.DrawPlan(c.T, ww.Schema)
+		splan.Fault = simio.Fault{Kind: 1 + c.T.Intn("c03.sfault.kind", 3), Off: c.T.Intn("c03.sfault.off", len(ww.Schema)+1),
+			WithData: c.T.Bool("c03.sfault.withdata"), ErrKind: c.T.Intn("c03.sfault.err", 3)}
+		if splan.Fault.Kind == simio.FaultTransient {
+			splan.Fault.Extra = c.T.Intn("c03.sfault.extra", 64)
+		}
+		env.Apply()
+		srd := simio.NewReader(ww.Schema, splan)
+		s, es, ps := run.NewSchemaFrom("sim-schema", srd)
+		c.Count("fault.schema-reader."+simio.FaultName(splan.Fault.Kind), 1)
+		c.Events += int64(srd.Stats.Reads)
+		c.Ev("c03-schema-reader", splan.Sig(), es, ps)
+		switch {
+		case ps != "":
+			return mk("C03.panic-newschema", "NewSchema panics when the schema reader fails: "+clipS(ps, 160), "", "schema reader: "+splan.String())
+		case s == nil && es == "":
+			return mk("C03.newschema-nil-nil", "NewSchema returns neither a Schema nor an error when the schema reader fails", "", "schema reader: "+splan.String())
+		}
+	}
 	return nil
 }
 
